@@ -19,12 +19,26 @@ fn check_relations_assignment(context: &CheckerContext) -> GenericResult<()> {
         .zip(context.problem.plan.relations.as_ref().map_or([].iter(), |relations| relations.iter()))
         .try_for_each(|(idx, relation)| {
             let tour = get_tour_by_vehicle_id(&relation.vehicle_id, relation.shift_index, &context.solution);
-            // NOTE tour can be absent for tour relation
+            // NOTE tour can be absent for tour relation, but its jobs still cannot be assigned to another vehicle
             let tour = if let Ok(tour) = tour {
                 tour
             } else {
                 return match relation.type_field {
-                    RelationType::Any => Ok(()),
+                    RelationType::Any => {
+                        let has_wrong_assignment = context
+                            .solution
+                            .tours
+                            .iter()
+                            .filter(|other| other.vehicle_id != relation.vehicle_id)
+                            .flat_map(|other| get_activity_ids(other))
+                            .any(|id| !reserved_ids.contains(id.as_str()) && relation.jobs.contains(&id));
+
+                        if has_wrong_assignment {
+                            Err(format!("relation {idx} has jobs assigned to another tour").into())
+                        } else {
+                            Ok(())
+                        }
+                    }
                     _ => tour.map(|_| ()),
                 };
             };
